@@ -263,29 +263,53 @@ def _misc_op(cfg, k, v):
 def c16_misc(k0: int, k1: int, k2: int, v: int, sus: int) -> bool:
   """
   Tag edits, update_callable, materialize_defaults, assign, copy_with, tagged assignment, deletion.
-  require: 0 <= k0 <= 11 and 0 <= k1 <= 11 and 0 <= k2 <= 11 and 0 <= sus <= 3
+  require: 0 <= k0 <= 11 and 0 <= k1 <= 11 and 0 <= k2 <= 11 and 0 <= sus <= 5
   """
   cfg = fdl.Config(fam.g0, x=1)
   other = fdl.Config(fam.g1, y=2)
   if not ends_with_current(cfg):
     return False
   suspended_any = False
+  outer = None
+  if sus >= 4:
+    # sus 4: the first two operations run inside an outer suspend block, the first of them inside an inner one as well;
+    # sus 5: tracking is switched off imperatively around the first two operations, the first runs in a suspend block.
+    # Either way the second operation comes after the inner block has been left and must not be logged.
+    if sus == 4:
+      outer = history.suspend_tracking()
+      outer.__enter__()
+    else:
+      history.set_tracking(enabled=False)
   for i, k in enumerate((k0, k1, k2)):
     before_hist = _entries(cfg)
     ids = _all_ids(cfg, other)
     max_before = max(ids) if ids else -1
     if k == 9 and 'x' not in cfg.__arguments__:
+      if sus >= 4 and i == 1:
+        if outer is not None:
+          outer.__exit__(None, None, None)
+        else:
+          history.set_tracking(enabled=True)
       continue
-    if sus == i + 1:
+    if sus == i + 1 or (sus >= 4 and i == 0):
       with history.suspend_tracking():
         new = _misc_op(cfg, k, v)
       suspended_any = True
       if new is cfg and k != 11 and _entries(cfg) != before_hist:
         return False                       # (suspension is per thread: the helper thread of op 11 still records)
+    elif sus >= 4 and i == 1:
+      new = _misc_op(cfg, k, v)             # after the inner block, still inside the outer suspension
+      if new is cfg and k != 11 and _entries(cfg) != before_hist:
+        return False
     else:
       new = _misc_op(cfg, k, v)
-    if not history.tracking_enabled():
-      return False
+    if sus >= 4 and i == 1:
+      if outer is not None:
+        outer.__exit__(None, None, None)
+      else:
+        history.set_tracking(enabled=True)
+    if history.tracking_enabled() != (not (sus >= 4 and i == 0)):
+      return False                           # on again after every block - except while the outer suspension lasts
     new_is_same = new is cfg
     if new is not cfg:
       # copy_with: the original's history is untouched, the copy's ends with its current state
@@ -302,7 +326,7 @@ def c16_misc(k0: int, k1: int, k2: int, v: int, sus: int) -> bool:
         return False
       if not all(_loc_ok(e) for e in v_):
         return False
-    if sus == i + 1 and new is cfg and k != 11 and new_ids:
+    if (sus == i + 1 or (sus >= 4 and i <= 1)) and new is cfg and k != 11 and new_ids:
       return False
     other.y = i
     # program order across configurations (and across threads that have finished): every entry written by this step
@@ -355,13 +379,13 @@ def obligations(tier, seed):
   smoke.pop('er', None)
   smoke['sig'] = core[0]
   mcubes = [Cube(f'k{a}_{b}_s{s}', [], dict(k0=a, k1=b, sus=s), est=10)
-            for a in range(12) for b in range(12) for s in ((a + b) % 4,)]
+            for a in range(12) for b in range(12) for s in ((a + b) % 6,)]
   if tier != 'quick':
     mcubes = [Cube(f'k{a}_{b}_s{s}', [], dict(k0=a, k1=b, sus=s), est=10)
-              for a in range(12) for b in range(12) for s in range(4)]
+              for a in range(12) for b in range(12) for s in range(6)]
   return [
       Obligation('c16_ops2', c16_ops2, cubes, timeout=t, path_timeout=30, smoke=dict(smoke, sus=0),
                  extra_smokes=[dict(smoke, sus=s) for s in (1, 2, 3, 4)]),
       Obligation('c16_misc', c16_misc, mcubes, timeout=t, path_timeout=30, smoke=dict(k0=0, k1=7, k2=5, v=3, sus=0),
-                 extra_smokes=[dict(k0=a, k1=(a + 3) % 12, k2=(a + 6) % 12, v=3, sus=a % 4) for a in range(12)] + [dict(k0=6, k1=10, k2=10, v=3, sus=0)]),
+                 extra_smokes=[dict(k0=a, k1=(a + 3) % 12, k2=(a + 6) % 12, v=3, sus=a % 6) for a in range(12)] + [dict(k0=6, k1=10, k2=10, v=3, sus=0)]),
   ]
